@@ -6,7 +6,10 @@
    resolves to and whether each lies under a permitted root. *)
 EXTENDS Naturals, Sequences, SequencesExt, FiniteSets, TLC, Json
 CONSTANTS MaxLen, Mode          \* Mode: "include" | "require"
-Comps == {"a", "foo", "foobar", "..", ".", ""}
+\* "a;" and "?" are ordinary file-name components for path resolution (the load-path separator and the
+\* template placeholder are characters a require string may contain); the harness writes the text after a
+\* component ending in ";" as an absolute path, so that a loader that splits the string at ";" sees one
+Comps == {"a", "foo", "foobar", "..", ".", "", "a;", "?"}
 RECURSIVE NormFrom(_, _, _)
 NormFrom(stack, comps, k) ==
   IF k > Len(comps) THEN stack
